@@ -387,3 +387,19 @@ pub mod small {
         sophia_api::test_graph_impl!(light_graph, LightGraph);
     }
 }
+
+#[cfg(feature = "verif_hooks")]
+impl<TI: TermIndex> GenericLightGraph<TI> {
+    /// Verification hook (feature `verif_hooks` only): read access to the term index.
+    pub fn verif_terms(&self) -> &TI {
+        &self.terms
+    }
+}
+
+#[cfg(feature = "verif_hooks")]
+impl<TI: TermIndex> GenericFastGraph<TI> {
+    /// Verification hook (feature `verif_hooks` only): read access to the term index.
+    pub fn verif_terms(&self) -> &TI {
+        &self.terms
+    }
+}
